@@ -1,74 +1,13 @@
 import BreezyVerif.Common
-import BreezyVerif.Model.C26
+import BreezyVerif.Driver.C26Lib
 namespace BreezyVerif.C26
-
-def parseCfg (s : String) : Option Cfg :=
-  match s.splitOn "." with
-  | [h, u, st] => do
-      let h ← h.toNat?
-      let u ← u.toNat?
-      let st ← parseBool st
-      pure ⟨h, u, st⟩
-  | _ => none
-
-def parseNonce (s : String) : Option Nonce :=
-  match s.splitOn "." with
-  | [o, k] => do
-      let o ← o.toNat?
-      let k ← k.toNat?
-      pure ⟨o, k⟩
-  | _ => none
-
-/-- `-` absent, `e` no info file, `o<owner>.<serial>`, `b<tag>` -/
-def parseHeld (s : String) : Option (Option Dir) :=
-  if s == "-" then some none
-  else if s == "e" then some (some none)
-  else match s.toList with
-    | 'o' :: rest => (parseNonce (String.ofList rest)).map (fun n => some (some (.ok n)))
-    | 'b' :: rest => (String.ofList rest).toNat?.map (fun t => some (some (.bad t)))
-    | _ => none
-
-def parseOp : Char → Option Op
-  | 'a' => some .attempt | 'u' => some .unlock | 'c' => some .confirm | 'b' => some .brk
-  | _ => none
-
-/-- `s<i><a|u|c|b>` start, `t<i>` step, `f<i><T|P>` fault, `x<i>` crash -/
-def parseEv (s : String) : Option Ev :=
-  match s.toList with
-  | 's' :: rest =>
-    match rest.reverse with
-    | o :: ds => do
-        let op ← parseOp o
-        let i ← (String.ofList ds.reverse).toNat?
-        pure (.start i op)
-    | [] => none
-  | 't' :: rest => (String.ofList rest).toNat?.map .step
-  | 'x' :: rest => (String.ofList rest).toNat?.map .crash
-  | 'f' :: rest =>
-    match rest.reverse with
-    | k :: ds => do
-        let k ← (if k == 'T' then some FaultKind.T else if k == 'P' then some FaultKind.P else none)
-        let i ← (String.ofList ds.reverse).toNat?
-        pure (.fault i k)
-    | [] => none
-  | _ => none
-
-def cfgFun (cs : List Cfg) : Nat → Cfg := fun i =>
-  match cs[i]? with
-  | some c => c
-  | none => ⟨1, 1, false⟩
-
-/-- observations after every prefix of the schedule -/
-def trace (n : Nat) (s : Sys) : List Ev → List String
-  | [] => [s.show n]
-  | e :: es => s.show n :: trace n (s.step e) es
 
 /-- `run n cfgs held events` | `kd hostEq isLocalhost userEq pidRecorded pidDead` -/
 def handle : List String → String
   | ["run", n, cfgs, held, evs] =>
     match n.toNat?, (splitList cfgs).mapM parseCfg, parseHeld held, (splitList evs).mapM parseEv with
     | some n, some cs, some h, some evs =>
-      if cs.length = n then "|".intercalate (trace n (Sys.init (cfgFun cs) h) evs) else "bad-op"
+      if cs.length = n then "|".intercalate (traceWith (·.show n) (Sys.init (cfgFun cs) h) evs) else "bad-op"
     | _, _, _, _ => "bad-op"
   | ["kd", a, b, c, d, e] =>
     match parseBool a, parseBool b, parseBool c, parseBool d, parseBool e with
